@@ -10,9 +10,10 @@
       (\.?\w+\.?Exception:)                       \w      = [0-9A-Za-z_]
       (?i)                                        ASCII case folding of the letters involved
 
-  `helperSpec` gives, for every helper of `ascii.go`, the class it stands for. Two deviations
-  of the unchanged code are known (recorded in known_findings.jsonl, proved below in Props):
-  `IsSpace` lacks `\f` and `\r`, `IsHexDigit` lacks `,`.
+  INFORMATIVE ONLY: C15 does not require the fast path to equal these regexps (they exist only in
+  code comments), so nothing here is an oracle of the check. `helperSpec` gives, for every helper
+  of `ascii.go`, the regexp class it stands for; Props/C15.lean states the two deviations of the
+  code as plain facts about the model: `IsSpace` lacks `\f` and `\r`, `IsHexDigit` lacks `,`.
 -/
 import FileD.Model.JoinTemplates
 namespace FileD.SpecC15Templates
